@@ -19,6 +19,7 @@ import yaml
 
 import lib
 import drive
+import drive_config
 
 lib.use_repo()
 from rebench import rebench as rb_main  # noqa: E402
@@ -45,11 +46,11 @@ def to_wire(o):
 def gen_details(rng, p=0.3, variables=True):
     d = {}
     if rng.random() < p:
-        d['invocations'] = rng.choice([1, 2, '3', '2!', 3])
+        d['invocations'] = rng.choice([1, 2, '3', '2!', 3, '12', '5', ' 4', '7!'])
     if rng.random() < p:
-        d['iterations'] = rng.choice([1, 2, '4!', 5])
+        d['iterations'] = rng.choice([1, 2, '4!', 5, '3', '10', '6!'])
     if rng.random() < p / 2:
-        d['warmup'] = rng.choice([0, 1, '2'])
+        d['warmup'] = rng.choice([0, 1, '2', '1!', '0', '3'])
     if rng.random() < p / 2:
         d['max_invocation_time'] = rng.choice([-1, 10, 300])
     if rng.random() < p / 2:
@@ -63,7 +64,7 @@ def gen_details(rng, p=0.3, variables=True):
     if rng.random() < p / 3:
         d['parallel_interference_factor'] = rng.choice([2.5, 1, '1.5'])
     if rng.random() < p / 2:
-        d['env'] = rng.choice([{}, {'A': 'x'}, {'PATH': '/bin', 'B': '1'}])
+        d['env'] = rng.choice([{}, {'A': 'x'}, {'PATH': '/bin', 'B': '1'}, {'H': '{HOME}/x', 'J': '{}'}])
     if not variables:
         return d
     if rng.random() < p / 2:
@@ -84,14 +85,14 @@ def gen_valid(rng):
     for i in range(n_s):
         benches = []
         for j in range(rng.choice([1, 2, 3])):
-            name = 'b%d' % (j + 1)
+            name = ('b%d' if rng.random() < 0.85 else 'b{%d}') % (j + 1)
             r = rng.random()
             if r < 0.5:
                 benches.append(name)
             else:
                 det = gen_details(rng, 0.25)
                 if rng.random() < 0.4:
-                    det['extra_args'] = rng.choice(['x', 3, '-v'])
+                    det['extra_args'] = rng.choice(['x', 3, '-v', '{a}', '-D{0}'])
                 if rng.random() < 0.2:
                     det['command'] = 'other'
                 if rng.random() < 0.1:
@@ -102,9 +103,9 @@ def gen_valid(rng):
         if rng.random() < 0.3:
             s['location'] = rng.choice(['loc', '~/suite', '/abs/dir'])
         if rng.random() < 0.3:
-            s['build'] = rng.choice([['make'], ['./configure', 'make -j']])
+            s['build'] = rng.choice([['make'], ['./configure', 'make -j'], ['make {target}']])
         if rng.random() < 0.2:
-            s['description'] = 'a suite'
+            s['description'] = rng.choice(['a suite', 'suite {name} of {0}', '{'])
         s.update(gen_details(rng, 0.2))
         suites['S%d' % (i + 1)] = s
     for i in range(n_e):
@@ -135,9 +136,9 @@ def gen_valid(rng):
             x['suites'] = snames
             x['executions'] = [enames[0]] + [{en: gen_details(rng, 0.3)} for en in enames[1:]]
         if rng.random() < 0.2:
-            x['description'] = 'an experiment'
+            x['description'] = rng.choice(['an experiment', 'exp {x}'])
         if rng.random() < 0.2:
-            x['data_file'] = 'exp%d.data' % i
+            x['data_file'] = rng.choice(['exp%d.data', 'exp{%d}.data']) % i
         if rng.random() < 0.15:
             x['action'] = 'benchmark'
         if rng.random() < 0.1:
@@ -168,11 +169,11 @@ def gen_valid(rng):
     return cfg
 
 
-POOL = [None, {}, [], '', 'abc', '3!', '!', 'x!', 2.5, True, False, 0, -1, 7, '2.5', ' 4 ', '1_0', [1], ['a', None], [None],
+POOL = ['/tmp', '.', '{x}', 'a{0}b', '{', '}}', '{}', {'{k}': {}}, ['{s}'], None, {}, [], '', 'abc', '3!', '!', 'x!', 2.5, True, False, 0, -1, 7, '2.5', ' 4 ', '1_0', [1], ['a', None], [None],
         {'a': 1}, {'a': {}, 'b': {}}, {'a': None}, '~x', 'profile', 'benchmark', 'profiler', 'all', 'S1', 'E1', 'X1',
         datetime.date(2020, 1, 2), 1e100, 'inf', ['S1'], ['E1'], [['S1']], {'perf': {}}, {'perf': {'record_args': None}},
         {'other': {}}, {'suites': None}, {'suites': ['S1']}, {'invocations': ''}, {'cores': None}, [{}]]
-KEYS = ['foo', '.foo', 'a.b', 1, '', True, None, 'invocations', 'cores', 'suites', 'executions', 'env', 'build', 'action',
+KEYS = ['{k}', '.{d}', 'foo', '.foo', 'a.b', 1, '', True, None, 'invocations', 'cores', 'suites', 'executions', 'env', 'build', 'action',
         'profiler', 'data_file', 'input_sizes', 'tags', 'variable_values', 'warmup', 'iterations']
 
 
@@ -224,7 +225,7 @@ def mutate(rng, cfg):
         if strs:
             q = rng.choice(strs)
             par = get_at(cfg, q[:-1])
-            par[q[-1]] = par[q[-1]] + '9'
+            par[q[-1]] = par[q[-1]] + rng.choice(['9', '9', '{9}', '{'])
             return 'dangle:' + key_class(q), cfg
         return 'none', cfg
     if kind == 'wrap':
@@ -333,6 +334,31 @@ experiments:
     ('env-int-value', 'runs:\n  env: {A: 1}\n'),
     ('pif-string', 'runs:\n  parallel_interference_factor: "1e-3"\n'),
     ('pif-bad-string', 'runs:\n  parallel_interference_factor: "fast"\n'),
+    ('yaml-unclosed-flow-map', '{a: b\n'),
+    ('yaml-error-braces', 'a: {b: }c}\n'),
+    ('yaml-error-braces-2', 'runs: {invocations: {0}\n  x\n'),
+    ('data-file-directory', 'default_data_file: /tmp\nbenchmark_suites:\n  S1: {gauge_adapter: Time, command: c, benchmarks: [b]}\n'
+                            'executors:\n  E1: {executable: x}\nexperiments:\n  X: {suites: [S1], executions: [E1]}\n'),
+    ('exp-data-file-directory', 'benchmark_suites:\n  S1: {gauge_adapter: Time, command: c, benchmarks: [b]}\n'
+                                'executors:\n  E1: {executable: x}\nexperiments:\n  X: {suites: [S1], executions: [E1], data_file: /}\n'),
+    ('command-bad-format-braces', 'benchmark_suites:\n  S1: {gauge_adapter: Time, command: "h {x} %(nokey)s", benchmarks: [b]}\n'
+                                  'executors:\n  E1: {executable: x}\nexperiments:\n  X: {suites: [S1], executions: [E1]}\n'),
+    ('command-bad-format-braces-2', 'benchmark_suites:\n  S1: {gauge_adapter: Time, command: "h {} %(benchmark)", benchmarks: [b]}\n'
+                                    'executors:\n  E1: {executable: x}\nexperiments:\n  X: {suites: [S1], executions: [E1]}\n'),
+    ('gauge-two-keys-brace-suite', 'benchmark_suites:\n  "S{1}": {gauge_adapter: {A: a.py, B: b.py}, command: c, benchmarks: [b]}\n'),
+    ('gauge-int-brace-suite', 'benchmark_suites:\n  "S{x}": {gauge_adapter: 5, command: c, benchmarks: [b]}\n'),
+    ('undefined-executor-braces', 'benchmark_suites:\n  S1: {gauge_adapter: Time, command: c, benchmarks: [b]}\n'
+                                  'experiments:\n  X: {suites: [S1], executions: ["E{9}"]}\n'),
+    ('undefined-suite-braces', 'benchmark_suites:\n  S1: {gauge_adapter: Time, command: c, benchmarks: [b]}\n'
+                               'executors:\n  E1: {executable: x}\nexperiments:\n  X: {suites: ["S{9}"], executions: [E1]}\n'),
+    ('default-exp-braces', 'default_experiment: "{x}"\nexperiments: {}\n'),
+    ('unknown-key-braces', '"{k}": 1\n'),
+    ('wrong-type-braces', 'build_log: ["{0}"]\n'),
+    ('invocations-braces', 'runs:\n  invocations: "{3}"\nbenchmark_suites:\n  S1: {gauge_adapter: Time, command: c, benchmarks: [b]}\n'
+                           'executors:\n  E1: {executable: x}\nexperiments:\n  X: {suites: [S1], executions: [E1]}\n'),
+    ('quoted-invocations-everywhere', 'runs: {invocations: "5", iterations: "3", warmup: "1"}\n'
+        'benchmark_suites:\n  S1: {gauge_adapter: Time, command: "c %(iterations)s", iterations: "4", benchmarks: [b1, {b2: {invocations: "2", warmup: "0"}}]}\n'
+        'executors:\n  E1: {executable: x, invocations: "6"}\nexperiments:\n  X: {suites: [S1], executions: [{E1: {iterations: "7"}}], invocations: "8"}\n'),
     ('empty-key', 'benchmark_suites:\n  "": {gauge_adapter: Time, command: c, benchmarks: [b]}\n'),
 ]
 
@@ -348,6 +374,8 @@ def cli_model(args):
         if a == '-m':
             d['machine'] = args[i + 1]
             i += 1
+        elif a == '-p':
+            pass
         elif a in ('-q', '--setup-only'):
             d['inv_override'] = True
             d['it_override'] = True
@@ -365,33 +393,38 @@ def cli_model(args):
 
 # ------------------------------------------------------------------ implementation side
 def run_impl(ck, text, cli, idx):
+    """the real `main_func` on the YAML text with -E; returns (outcome class for the
+    comparison, phase, frame that raised, result)"""
     wd = os.path.join(ck.scratch, 'w')
     os.makedirs(wd, exist_ok=True)
     conf = os.path.join(wd, 'c%d.conf' % (idx % 50))
     with open(conf, 'w') as f:
         f.write(text)
-    stage = {'compiled': False}
-    orig = rb_main.ReBench.load_data_and_execute_experiments
-
-    def wrapped(self, *a, **kw):
-        stage['compiled'] = True
-        return orig(self, *a, **kw)
-    rb_main.ReBench.load_data_and_execute_experiments = wrapped
-    try:
-        r = drive.run_session(wd, ['-E', conf] + list(cli), script=lambda rec: drive.Outcome(rc=0, out=''))
-    finally:
-        rb_main.ReBench.load_data_and_execute_experiments = orig
+    # `-p` (print the execution plan: command lines are rendered) instead of `-E` when asked for
+    mode = ['-p'] if '-p' in cli else ['-E']
+    r = drive_config.run_main(wd, mode + [conf] + [a for a in cli if a != '-p'])
     st = r.status()
-    late = None
-    if stage['compiled']:
-        if r.crash:
-            late = r.crash[0]
-        st = 'ok'
+    phase = 'after-compile' if r.compiled else 'compile'
     where = None
-    if r.crash and not stage['compiled']:
+    if r.crash:
         frames = [f for f in r.crash[2] if not f.startswith('core.py')]
         where = (frames or r.crash[2])[-1]
-    return st, where, late, r
+    return st, phase, where, r
+
+
+def unreadable_files(ck, doc):
+    """configured data-file names that exist in the session's directory but cannot be opened
+    for reading (directories) — the part of the file system the model is told about"""
+    names = []
+    if isinstance(doc, dict):
+        names.append(doc.get('default_data_file'))
+        exps = doc.get('experiments')
+        if isinstance(exps, dict):
+            for e in exps.values():
+                if isinstance(e, dict):
+                    names.append(e.get('data_file'))
+    wd = os.path.join(ck.scratch, 'w')
+    return sorted(set(n for n in names if isinstance(n, str) and n and os.path.isdir(os.path.join(wd, n))))
 
 
 def check_docs(ck, cases, variant_repaired=True, search=True):
@@ -406,28 +439,27 @@ def check_docs(ck, cases, variant_repaired=True, search=True):
             doc, yaml_ok = None, False
         except RecursionError:
             continue
-        st, where, late, r = run_impl(ck, text, cli, ck.evaluations + i)
+        st, phase, where, r = run_impl(ck, text, cli, ck.evaluations + i)
         ck.impl_traces += 1
-        obs.append((kind, text, cli, valid, yaml_ok, st, where, late, r))
+        obs.append((kind, text, cli, valid, yaml_ok, st, where, phase, r))
         if yaml_ok:
-            req = {'op': 'c19.compile', 'doc': to_wire(doc), 'repaired': variant_repaired}
+            req = {'op': 'c19.compile', 'doc': to_wire(doc), 'repaired': variant_repaired,
+                   'unreadable': unreadable_files(ck, doc)}
             req.update(cli_model(cli))
             ops.append(req)
     answers = iter(ck.model(ops))
-    for (kind, text, cli, valid, yaml_ok, st, where, late, r) in obs:
+    for (kind, text, cli, valid, yaml_ok, st, where, phase, r) in obs:
         inp = {'mutation': kind, 'yaml': text, 'cli': cli}
         mclass = kind.split(':')[0]
         ck.count('mutation:' + mclass)
-        ck.count('impl:' + st.split(':')[0])
-        if late:
-            ck.count('late-crash-after-compilation(not C19):' + late)
+        ck.count('impl:' + st.split(':')[0] + ('/after-compile' if phase == 'after-compile' and st != 'ok' else ''))
         ck.case(nontrivial_key=(text, tuple(cli)) if st != 'ok' or valid else None,
                 sample={'mutation': kind, 'cli': cli, 'outcome': st, 'yaml': text[:300]})
         # oracle
         if st.startswith('crash:'):
             ck.oracle_fail('no_traceback', inp, {'status': st, 'message': r.crash[1], 'frames': r.crash[2]},
-                           signature={'clause': 'no_traceback', 'exception': st[6:], 'raised_in': where,
-                                      'mutation': mclass})
+                           signature={'clause': 'no_traceback', 'phase': phase, 'exception': st[6:],
+                                      'raised_in': where, 'mutation': mclass})
         elif st not in ('ok', 'ui_error'):
             ck.oracle_fail('exit_status', inp, {'status': st}, signature={'clause': 'exit_status', 'status': st})
         if valid and st != 'ok':
@@ -443,7 +475,11 @@ def check_docs(ck, cases, variant_repaired=True, search=True):
         ck.count('model:' + ans['outcome'].split(':')[0] + ('' if ans['schema_ok'] else '/schema'))
         if ans['raised']:
             ck.count('model-raises:' + ans['raised'])
-        if ans['outcome'] != st:
+        # a diagnostic after the configuration was compiled (e.g. an unknown %(key)s in a
+        # command, C03) is outside the model: the configuration itself was accepted
+        # (and a traceback there is the oracle's business: the model ends with the compilation)
+        cmp_st = 'ok' if phase == 'after-compile' else st
+        if ans['outcome'] != cmp_st:
             ck.disagree('c19.compile: outcome class vs RB.ConfigDoc.compile', inp,
                         {'outcome': st, 'raised_in': where, 'message': r.crash[1] if r.crash else None},
                         {'outcome': ans['outcome'], 'schema_ok': ans['schema_ok'], 'raised': ans['raised']}, THEOREMS)
@@ -486,7 +522,7 @@ def load_corpus():
         for f in sorted(os.listdir(d)):
             if f.endswith('.json'):
                 inp = json.load(open(os.path.join(d, f)))['input']
-                out.append((inp['mutation'], inp['yaml'], inp['cli'], False))
+                out.append((inp['mutation'], inp['yaml'], inp['cli'], inp['mutation'] == 'valid'))
     return out
 
 
@@ -502,11 +538,13 @@ def run(ck):
                'non-trivial = distinct document that is a valid generated one or is not accepted')
     ck.assumptions = ['PyYAML (safe_load) is shared by both sides: the model starts from the parsed document',
                       'pykwalify 1.8 semantics are re-stated in RB.ConfigDoc.validate for the constructs the schema uses',
-                      'what happens after the configuration is compiled (data loading, command-line rendering for -E) '
-                      'is outside C19; a traceback there is counted separately and not judged here']
+                      'the model ends where the configuration is compiled; the rest of the -E session (data loading, '
+                      'command-line rendering, the rendering of error messages by main_func) is covered by the oracle only: '
+                      'any traceback of the session is an oracle failure (signature phase: after-compile)']
     cases = load_corpus()
     ck.count('corpus', len(cases))
     cases += [(k, t, [], False) for (k, t) in ANCHOR_TEXTS]
+    cases += [(k + '/-p', t, ['-p'], False) for (k, t) in ANCHOR_TEXTS if k.startswith(('command-', 'quoted-', 'anchor-merge'))]
     n = 280 if quick else 3500
     for _ in range(n):
         cfg = gen_valid(ck.rng)
